@@ -64,9 +64,11 @@ def cond_atoms(test: ast.AST, pol: bool, env=None) -> List[Fact]:
 
 
 class CFG:
-    def __init__(self, fnode: ast.AST, env=None):
+    def __init__(self, fnode: ast.AST, env=None, exc_oracle=None):
         self.fnode = fnode
         self.env = env  # single-assignment env used to canonicalise facts (optional)
+        # exc_oracle(type_expr) -> (class name, set of names of all its base classes incl. itself, is_builtin) or None; and .related(a, b) for user classes
+        self.exc_oracle = exc_oracle
         self.nodes: List[Node] = []
         self.succ: Dict[int, List[Tuple[int, str, Tuple[Fact, ...]]]] = {}
         self.pred: Dict[int, List[Tuple[int, str, Tuple[Fact, ...]]]] = {}
@@ -166,8 +168,9 @@ class CFG:
         non-built-in classes, and when a finally block lies in between."""
         import builtins
         e = st.exc
-        if e is None:
-            return None
+        hframes = [fr for fr in stack if fr[0] == "handler"]
+        if e is None or (isinstance(e, ast.Name) and hframes and hframes[-1][1].name == e.id and st.cause is None):
+            return self._reraise_target(stack)
         nm = e.func if isinstance(e, ast.Call) else e
         if not isinstance(nm, ast.Name):
             return None
@@ -195,6 +198,43 @@ class CFG:
                         continue
                     if issubclass(cls, hc):
                         return hid
+        return self.rexit
+
+    def _reraise_target(self, stack):
+        """Target of a bare `raise` / `raise <handler variable>` inside `except T1, T2 as e:` - the object in flight is an instance of some subclass of a Ti.
+        With the class oracle: the first enclosing handler (outside the handler we are in) that surely catches every such instance; handlers that can
+        never catch one are passed by; as soon as a handler may or may not catch it the conservative edges are used (None)."""
+        if self.exc_oracle is None:
+            return None
+        idx = max(i for i, fr in enumerate(stack) if fr[0] == "handler")
+        h0 = stack[idx][1]
+        if h0.type is None:
+            return None
+        flying = []
+        for t in (h0.type.elts if isinstance(h0.type, ast.Tuple) else [h0.type]):
+            info = self.exc_oracle(t)
+            if info is None:
+                return None
+            flying.append(info)
+        for i in range(idx - 1, -1, -1):
+            fr = stack[i]
+            if fr[0] == "fin":
+                return None
+            if fr[0] != "try":
+                continue
+            for hid in fr[1]:
+                h = self.nodes[hid].ast
+                if h.type is None:
+                    return hid
+                for t in (h.type.elts if isinstance(h.type, ast.Tuple) else [h.type]):
+                    hi = self.exc_oracle(t)
+                    if hi is None:
+                        return None
+                    hname = hi[0]
+                    if all(hname in f[1] for f in flying):
+                        return hid                      # a base class of everything in flight
+                    if any(hname in f[1] or f[0] in hi[1] or self.exc_oracle.related(hname, f[0]) for f in flying):
+                        return None                     # narrower than / overlapping with what is in flight: may or may not catch
         return self.rexit
 
     def _in_try(self, stack):
@@ -304,7 +344,7 @@ class CFG:
             if st.orelse:
                 out = self._seq(st.orelse, out, base, tag)
             for h, he in zip(st.handlers, h_entries):
-                out = out + self._seq(h.body, [(he, "n", ())], base, tag)
+                out = out + self._seq(h.body, [(he, "n", ())], base + (("handler", h, self._key()),), tag)
             if st.finalbody:
                 out = self._seq(st.finalbody, out, stack, tag)
             return out
